@@ -37,3 +37,31 @@ prop("C07",
      assumptions=["rank 0 and ranks beyond the size are unspecified: queries must still return only current members in rank order, mutating calls use in-domain ranks",
                   "known finding c07-zrem-empty-key is applied as a named model deviation"],
      technique="small-scope exhaustive enumeration + model-based property testing (rapid)")
+
+prop("C02",
+     level="exploration",
+     tests=[dict(name="TestC02", quick=400, thorough=4000)],
+     rule="rapid-generated single-bucket KV histories in HintBPTSparseIdxMode (1-25 steps; write transactions of 1-4 Put/PutWithTimestamp/Delete incl. exact-fill records; reopen 20% of steps; segment sizes 120/200/333 so most keys live in sealed segments; FileIO/MMap x loading mode x sync), checked after every step against the ordered-map-with-TTL model: Get of every key, GetAll, PrefixScan(p,0,ScanNoLimit) of every key prefix, RangeScan over drawn straddling bounds, including reads before the first write. Non-trivial: >=1 rotation and a deleted/expired key next to live keys.",
+     assumptions=["single bucket, so bucket+key concatenations are unambiguous (the ambiguous case is C04)"])
+
+prop("C04",
+     level="exploration",
+     tests=[dict(name="TestC04", quick=1500, thorough=15000)],
+     rule="rapid-generated histories over 2-3 buckets drawn from adversarial names {b, bb, b|, \"\", ab, a} (prefixes of each other, empty), KV in all three index modes, lists/sets/sorted sets in KeyVal mode, one call per transaction, reopen steps. Oracle A (metamorphic): after every write transaction the full observation of every (structure,bucket) it does not name is unchanged; oracle B: the reference model with per-bucket maps. Non-trivial: >=2 buckets where one name is a prefix of another.",
+     assumptions=["known finding c04-sparse-bucket-key-concatenation: sparse-mode histories whose bucket names are prefix-related run in KeyOnly mode instead (counted under excluded)"],
+     technique="metamorphic + model-based property testing (rapid)")
+
+prop("C08",
+     level="exploration",
+     tests=[dict(name="TestC08", quick=1200, thorough=15000)],
+     rule="rapid-generated histories mixing KV (all index modes) and list/set/sorted-set calls (KeyVal mode) in transactions of 1-4 calls (reads and writes, so calls that are valid when made but no-ops at commit occur: second pop of a one-element list, LSet/LTrim/LRem after a pop, SRem of a missing key), exact-fill records, Close/Open at drawn points and at the end. Oracle (metamorphic, model-free): the full observation of every bucket and structure just before Close equals the one just after Open. Non-trivial: a reopen preceded by a committed transaction that touches >=2 structures, contains SMove/SPop, or mutates the same list twice.",
+     assumptions=["histories in which a call panics are skipped (C20's domain) and counted"],
+     technique="metamorphic property testing (rapid)")
+
+prop("C19",
+     level="exploration",
+     tests=[dict(name="TestC19", quick=350, thorough=3000)],
+     rule="each rapid-generated mixed history (KV + list/set/sorted-set calls, reads inside transactions, reopen steps, exact-fill records, segment sizes 120-1024) is executed under all 8 combinations RWMode x StartFileLoadingMode x SyncEnable in KeyVal mode, and its KV part under KeyVal (reference), KeyOnly x 8 and sparse x 8 combinations; per-call results, commit outcomes and the observation after every step are compared across configurations (differential). Non-trivial: history with >=1 rotation and >=1 reopen.",
+     assumptions=["SPop is not generated (it may return any member, so two runs may legitimately diverge)",
+                  "known finding c04-sparse-bucket-key-concatenation: sparse configurations are skipped for histories with prefix-related bucket names (counted)"],
+     technique="differential property testing across option sets (rapid)")
